@@ -7,7 +7,10 @@
    interleaving of AddBlock, block flushes (any batch size), Wait confirmations, commit
    scheduling (any timing), the tracker transaction, postCommit, every single durable write of
    the catchpoint post-processing and of crash recovery, block pruning, crashes at ANY of these
-   points and reopens (also crashes during recovery, any number of times).  Blocks, ledger
+   points and reopens (also crashes during recovery, any number of times), and of faults the
+   process survives: a tracker transaction or a block transaction that fails (error or panic
+   inside it) and is rolled back, after which the node goes on ([OCommitFails], [OFlushFails]).
+   Blocks, ledger
    states and the evaluator are abstract ([B], [W], [apply]), MaxAcctLookback, archival mode,
    catchpoint interval / lookback / file generation are arbitrary ([cf]). *)
 From Coq Require Import List Arith Bool.
@@ -52,6 +55,15 @@ Theorem C09_recover_prefix : forall (B W : Type) (apply : B -> W -> W) (genesis 
       lookup B W (s_d B W s') v r = Some (state_at B W apply genesis (d_blocks d) r).
 Proof. exact recover_prefix. Qed.
 Print Assumptions C09_recover_prefix.
+
+(* a failed (rolled-back) tracker or block transaction leaves the disk exactly as it was; since
+   [OCommitFails] / [OFlushFails] are operations of [run], the three theorems above hold for every
+   fault sequence mixed with crashes *)
+Theorem C09_failed_tx_durable_unchanged : forall (B W : Type) (apply : B -> W -> W) (cf : cfg) (s s' : state B W),
+  step B W apply cf s (OCommitFails B) = Some s' \/ step B W apply cf s (OFlushFails B) = Some s' ->
+  s_d B W s' = s_d B W s.
+Proof. exact failed_tx_durable_unchanged. Qed.
+Print Assumptions C09_failed_tx_durable_unchanged.
 
 (* catchpoint leftovers at every crash point: a torn data file exists only for the tracker DB
    round while writingFirstStageInfo is set, a torn / unrecorded catchpoint file only for a round
@@ -107,6 +119,20 @@ Example C09_ex_crash_loses_queue :
   match s_m nat nat s' with
   | Up _ _ v => v_latest nat nat v = 2 /\ d_dbr (s_d nat nat s') = 1 /\
                 lookup nat nat (s_d nat nat s') v 1 = Some 5 /\ lookup nat nat (s_d nat nat s') v 2 = Some 12
+  | _ => False
+  end.
+Proof. vm_compute. repeat split. Qed.
+
+(* a tracker commit fails, the node goes on, commits later, crashes: recovery still serves the prefix *)
+Example C09_ex_failed_commit :
+  let ops := [OOpen nat; OReplay nat; OAdd nat 5; OAdd nat 7; OAdd nat 1; OFlush nat 3; OFlushed nat; ONotify nat true 0;
+              OCommitFails nat; OForget nat; OAdd nat 2; OFlush nat 1; OFlushed nat; ONotify nat true 0; OCommit nat; OCrash nat] in
+  let s1 := run nat nat ex_apply ex_cfg (init nat nat 0) (firstn 9 ops) in
+  let s := run nat nat ex_apply ex_cfg (init nat nat 0) ops in
+  let s' := open_full nat nat ex_apply ex_cfg (s_d nat nat s) in
+  d_dbr (s_d nat nat s1) = 0 /\ d_dbr (s_d nat nat s) = 3 /\
+  match s_m nat nat s' with
+  | Up _ _ v => v_latest nat nat v = 4 /\ lookup nat nat (s_d nat nat s') v 3 = Some 13 /\ lookup nat nat (s_d nat nat s') v 4 = Some 15
   | _ => False
   end.
 Proof. vm_compute. repeat split. Qed.
